@@ -11,8 +11,15 @@ CHECKS = PKG + '._checks'
 NORMALISERS = ('lower', 'casefold', 'upper')
 
 
+_NORM_ALIASES = {}
+
+
 def norm_of(expr):
     """x.lower() -> ('lower', x) ; else (None, expr)"""
+    if isinstance(expr, ast.Call) and isinstance(expr.func, ast.Name) and \
+            expr.func.id in _NORM_ALIASES and len(expr.args) == 1:
+        # NAME = operator.methodcaller('lower') / str.lower
+        return _NORM_ALIASES[expr.func.id], expr.args[0]
     mc = method_call(expr)
     if mc and mc[1] in NORMALISERS and not expr.args:
         return mc[1], mc[0]
@@ -60,7 +67,7 @@ def empty_default(expr):
         or is_const(expr, '', None)
 
 
-def roles_of(t, expr, creds_p):
+def roles_of(t, expr, creds_p, sentinel_keys=()):
     """(key, how) when expr denotes the role list of the credentials."""
     e = t.expand(expr)
     # list(x) / tuple(x) / set(x) / sorted(x) keep the elements
@@ -74,9 +81,41 @@ def roles_of(t, expr, creds_p):
     key, how = roles_source(e, creds_p)
     if key is not None and how == 'get':
         dflt = e.args[1] if len(e.args) > 1 else None
-        if not empty_default(dflt):
+        if not empty_default(dflt) and not (
+                key in sentinel_keys and isinstance(dflt, (ast.Name,
+                                                           ast.Attribute))):
+            # (a sentinel default is fine once the path has tested for it)
             return None, None
     return key, how
+
+
+def _subscript_in_keyerror_try(prog, f, creds_p, key):
+    """Is every `creds[key]` of the class inside a try whose KeyError
+    handler returns False?"""
+    from ..util import parent_map, handler_names
+    found = False
+    for g in f.cls.methods.values():
+        pm = parent_map(g.node)
+        for n in ast.walk(g.node):
+            if isinstance(n, ast.Subscript) and U(n.value) == creds_p and \
+                    is_const(n.slice, key):
+                found = True
+                cur, anc, ok = n, pm.get(n), False
+                while anc is not None:
+                    if isinstance(anc, ast.Try) and any(
+                            cur is b for b in anc.body):
+                        for h in anc.handlers:
+                            if 'builtin:KeyError' in handler_names(
+                                    prog, g.module, h, g.cls) and all(
+                                        isinstance(x, ast.Return)
+                                        and is_const(x.value, False)
+                                        for x in ast.walk(h)
+                                        if isinstance(x, ast.Return)):
+                                ok = True
+                    cur, anc = anc, pm.get(anc)
+                if not ok:
+                    return False
+    return found
 
 
 def check(ctx):
@@ -106,10 +145,20 @@ def check(ctx):
     if len(prm) < 4:
         raise AnalysisError('role check __call__ has too few parameters')
     target_p, creds_p = prm[1], prm[2]
+    _NORM_ALIASES.clear()
+    for nm, v in f.module.assigns.items():
+        if isinstance(v, ast.Call) and (prog.resolve(f.module, v.func) or ''
+                                        ).endswith('operator.methodcaller') \
+                and len(v.args) == 1 and is_const(v.args[0]) and \
+                v.args[0].value in NORMALISERS:
+            _NORM_ALIASES[nm] = v.args[0].value
+        elif isinstance(v, ast.Attribute) and U(v) in (
+                'str.lower', 'str.casefold', 'str.upper'):
+            _NORM_ALIASES[nm] = v.attr
     from ..dte import inline_self_methods
     t = Table(prog, f, inline=inline_self_methods(
         prog, exclude={CHECKS + '._check'}), split_returns=True,
-        max_depth=4)
+        max_depth=4, comps=True)
     W = ctx.where(f.module, f.node)
     n_member = n_false = n_subst = 0
     reported = set()
@@ -144,6 +193,7 @@ def check(ctx):
                                 + U(e))
         verdict = bool(e.value)
         reasons = []          # legitimate reasons to deny
+        sentinel_keys = set()
         match = None          # the positive match condition
         unknown = []
         keys = set()
@@ -158,7 +208,12 @@ def check(ctx):
                     unknown.append(c)
                 continue
             if c.kind == 'loop':
-                key, how = roles_of(t, ce, creds_p)
+                if empty_default(t.expand(ce)):
+                    # the stand-in for "no role list"
+                    if not c.pol:
+                        reasons.append('no roles')
+                    continue
+                key, how = roles_of(t, ce, creds_p, sentinel_keys)
                 if key is None:
                     unknown.append(c)
                     continue
@@ -175,7 +230,26 @@ def check(ctx):
                 if not c.pol:
                     reasons.append('no role list')
                 continue
-            key, how = roles_of(t, ce, creds_p)
+            # creds.get(key, SENTINEL) is SENTINEL
+            if isinstance(ce, ast.Compare) and len(ce.ops) == 1 and \
+                    isinstance(ce.ops[0], ast.Is):
+                lx, rx = t.expand(ce.left), t.expand(ce.comparators[0])
+                for a_, b_ in ((lx, rx), (rx, lx)):
+                    mg = method_call(a_, 'get') if isinstance(
+                        a_, ast.Call) else None
+                    if mg and U(mg[0]) == creds_p and len(a_.args) == 2 \
+                            and is_const(a_.args[0]) and U(
+                                a_.args[1]) == U(b_) and not isinstance(
+                                    b_, ast.Constant):
+                        guard_keys.add(a_.args[0].value)
+                        sentinel_keys.add(a_.args[0].value)
+                        if c.pol:
+                            reasons.append('no role list')
+                        break
+                else:
+                    unknown.append(c)
+                continue
+            key, how = roles_of(t, ce, creds_p, sentinel_keys)
             if key is not None:
                 # truthiness of the role list itself
                 keys.add((key, how))
@@ -191,7 +265,7 @@ def check(ctx):
                     src = elem_source(t, xsrc)
                     if src is None:
                         continue
-                    key, how = roles_of(t, src, creds_p)
+                    key, how = roles_of(t, src, creds_p, sentinel_keys)
                     yn, y_is_x = is_x(y)
                     if key is not None and y_is_x:
                         hit = (xn, yn, key, how)
@@ -225,7 +299,8 @@ def check(ctx):
                      'the roles are read from creds[%r], not creds[\'roles\']'
                      % key)
             if how == 'subscript':
-                guard = key in guard_keys
+                guard = key in guard_keys or _subscript_in_keyerror_try(
+                    prog, f, creds_p, key)
                 once('C04.ELSE-FALSE', guard, where,
                      'presence guard for creds[%r]' % key,
                      'the key subscripted is the key tested for presence'
